@@ -305,6 +305,13 @@ pub fn run_case(ctx: &mut Ctx, case: &Value, every_target: bool) {
         ctx.report.bump(&format!("defect-depth:{}", depth.min(4)));
         if nested { ctx.report.bump("defect-inside-disclosure"); }
         ctx.report.nontrivial_case(&json!([case["tree"], kind, target]));
+        // the same issuer-signed JWT is first looked at with no disclosure at all (result not judged here): what a
+        // verifier learnt about a payload then says nothing about the values of disclosures it has not seen yet
+        {
+            let dec = keys::dec_key(0, 0);
+            let v = sdjwt::Validation::default().without_expiry().with_algorithm(Algorithm::HS256);
+            let _ = real::verifier_verify(&format!("{}~", jwt), &dec, &v, None);
+        }
         three_entries(ctx, &token, false, &c2, &def.detail);
         // a defect of the signed payload itself is there whatever is presented: also with no disclosure at all
         // (a repeated digest only if both embeddings are in the payload: one inside a hidden claim is not there to see)
@@ -331,7 +338,7 @@ pub fn run_case(ctx: &mut Ctx, case: &Value, every_target: bool) {
 }
 
 pub fn run(ctx: &mut Ctx, replay: Option<&Value>) {
-    ctx.report.rule = "reference-issued unbound tokens (Lean spec issuer) given exactly one defect, validly signed: disclosure of wrong arity for its place / not an array / arity 0,1,4; name not a string / reserved; name equal to a sibling member; a digest embedded twice (in `_sd`, or in two array placeholders); _sd not an array and placeholder with extra members (in the payload at a random object/array at any depth, and inside a disclosure's value); unsupported _sd_alg (other types, unregistered names, look-alikes of the registered names: leading zeros / sign / case / blanks / unicode hyphen); target mark random (thorough: every mark); all disclosures presented (payload-level defects also with none); Verifier::verify, Holder::verify, Holder::presentation must all return Err and accept the twin; non-trivial = distinct (tree, defect kind, target)".to_string();
+    ctx.report.rule = "reference-issued unbound tokens (Lean spec issuer) given exactly one defect, validly signed: disclosure of wrong arity for its place / not an array / arity 0,1,4; name not a string / reserved; name equal to a sibling member; a digest embedded twice (in `_sd`, or in two array placeholders); _sd not an array and placeholder with extra members (in the payload at a random object/array at any depth, and inside a disclosure's value); unsupported _sd_alg (other types, unregistered names, look-alikes of the registered names: leading zeros / sign / case / blanks / unicode hyphen); target mark random (thorough: every mark); all disclosures presented, right after the same JWT was verified with none (payload-level defects are also judged with none); Verifier::verify, Holder::verify, Holder::presentation must all return Err and accept the twin; non-trivial = distinct (tree, defect kind, target)".to_string();
     if let Some(case) = replay {
         run_case(ctx, case, false);
         return;
